@@ -31,6 +31,10 @@ ENGINE_IFACE = {"pkg": "pkg/engine/interfaces", "type": "Engine", "known": ["Put
 SERVICE = {"pkg": "proto/kevo", "type": "KevoServiceServer", "known": ["Get", "Put", "Delete", "BatchWrite", "Scan", "BeginTransaction", "CommitTransaction",
     "RollbackTransaction", "TxGet", "TxPut", "TxDelete", "TxScan", "GetStats", "Compact", "GetNodeInfo"]}
 
+CONFIG_FIELDS = {"pkg": "pkg/config", "type": "Config", "fields": True, "known": ["Version", "WALDir", "WALSyncMode", "WALSyncBytes", "WALMaxSize", "MemTableSize", "MaxMemTables",
+    "MaxMemTableAge", "MemTablePoolCap", "SSTDir", "SSTableBlockSize", "SSTableIndexSize", "SSTableMaxSize", "SSTableRestartSize", "CompactionLevels", "CompactionRatio",
+    "CompactionThreads", "CompactionInterval", "MaxLevelWithTombstones", "ReadOnlyTxTTL", "ReadWriteTxTTL", "IdleTxTimeout", "TxCleanupInterval", "TxWarningThreshold", "TxCriticalThreshold"]}
+
 SIMFS = "simfs: os/filepath calls go to an in-engine file-system model (write appends to the file image, fsync moves the durable watermark, rename atomic, O_EXCL honoured; directory-entry durability assumed)"
 CLOCK = "time.Now is a strictly increasing concrete clock; tickers never fire by themselves"
 HASH = "xxhash.Sum64 / crc32.ChecksumIEEE / bloom hash are uninterpreted functions of their byte arguments (ideal-checksum assumption); CRC-32 additionally gets single-byte-error axiom instances"
@@ -235,7 +239,7 @@ check("C20", "configuration is validated and persists", [
        "every crash point incl. after the last step; torn write every length; both crash models"),
     ob("VerifC20_OpenWithStoredConfig", "pkg/engine", "database created with a non-default configuration; manifest intact / cut at every byte / garbage / invalid configuration / removed: intact => reopened with exactly the stored configuration and its data; cut, unreadable or invalid => open fails, creates no log/table file, does not overwrite the manifest; missing => defaults",
        "5 manifest conditions, every cut offset of the stored text"),
-], [SIMFS, CLOCK, HASH, BLOOM, JSON, LOG, TIERA], ["the JSON text itself: number formatting/parsing, escaping, byte-exact layout (encoding/json is reflection-driven and not encoded; the stub models which fields reach the text and come back, per struct tags, and states the round trip of each stored field as identity)", "alterations of the stored text other than truncation"])
+], [SIMFS, CLOCK, HASH, BLOOM, JSON, LOG, TIERA], ["the JSON text itself: number formatting/parsing, escaping, byte-exact layout (encoding/json is reflection-driven and not encoded; the stub models which fields reach the text and come back, per struct tags, and states the round trip of each stored field as identity)", "alterations of the stored text other than truncation"], method_sets=[CONFIG_FIELDS])
 
 check("C18", "memtable ordered multi-version map", [
     ob("VerifC18_TableGetIterate", "pkg/memtable", "MemTable.Put/Delete/Get/NewIterator/SetImmutable: Get returns an entry of maximal sequence number (marker = found-but-deleted); iteration ascending by key, newer versions first, each entry once; an immutable table ignores writes",
